@@ -579,6 +579,9 @@ pub struct DocGen<'a, 'b> {
     pub p: &'b GenParams<'a>,
     pub next_id: u32,
     pub budget: usize,
+    /// this document may nest deeper / hold more siblings than usual
+    pub max_depth: usize,
+    pub wide: bool,
 }
 
 impl<'a, 'b> DocGen<'a, 'b> {
@@ -589,6 +592,10 @@ impl<'a, 'b> DocGen<'a, 'b> {
                 String::new() // blank line
             } else if r == 1 {
                 self.rng.pick(&["  ", "\t", " "]).to_string() // whitespace-only line
+            } else if r == 2 && self.p.large_inputs && self.rng.chance(1, 40) {
+                // a very long line (minified code): crosses line-buffer and block sizes
+                let n = *self.rng.pick(&[1_100usize, 9_000, 70_000]);
+                format!("{}var a=[{}];", indent, "1,".repeat(n / 2))
             } else {
                 format!("{}{}", indent, self.rng.pick(CODE_LINES))
             };
@@ -600,10 +607,11 @@ impl<'a, 'b> DocGen<'a, 'b> {
     }
 
     fn nodes(&mut self, depth: usize, indent: &str, ds: &str, de: &str, min: usize, max: usize) -> Vec<Node> {
+        let max = if self.wide && depth == 0 { max * 8 } else { max };
         let n = min + self.rng.usize(max - min + 1);
         let mut v = Vec::new();
         for _ in 0..n {
-            let want_elem = self.budget > 0 && depth < self.p.max_depth && self.rng.chance(2, 5);
+            let want_elem = self.budget > 0 && depth < self.max_depth && self.rng.chance(if self.wide { 3 } else { 2 }, 5);
             if want_elem {
                 self.budget -= 1;
                 v.push(Node::Elem(self.elem(depth, indent, ds, de)));
@@ -769,8 +777,13 @@ pub fn generate(rng: &mut Rng, p: &GenParams) -> Doc {
         let (a, b) = rng.pick(DELIMS);
         (a.to_string(), b.to_string(), rng.pick(TL_TAGS).to_string(), rng.pick(RM_TAGS).to_string())
     };
-    let budget = 1 + rng.usize(p.max_elems);
-    let mut g = DocGen { rng, p, next_id: 1, budget };
+    // mostly small documents; now and then many elements or deep nesting
+    let (budget, max_depth, wide) = match rng.below(100) {
+        0 => (20 + rng.usize(40), p.max_depth, true),
+        1 => (4 + rng.usize(10), p.max_depth + 5, false),
+        _ => (1 + rng.usize(p.max_elems), p.max_depth, false),
+    };
+    let mut g = DocGen { rng, p, next_id: 1, budget, max_depth, wide };
     let mut nodes = g.nodes(0, "", &ds, &de, 1, 6);
     // make sure there is at least one element
     if g.next_id == 1 {
